@@ -420,6 +420,17 @@ def rhd_param(c):
     t += "DensityFunction:\n  type: Homogeneous\n  density: %s\n  temperature: 100. K\n" % c.get("density", "1. m^-3")
     if c.get("source", "inside") == "inside":
         t += "PhotonSourceDistribution:\n  type: SingleStar\n  position: [%g m, %g m, %g m]\n  luminosity: %s s^-1\n" % (tuple(centre) + (c.get("luminosity", "1.e10"),))
+    elif c["source"] == "discpatch":
+        # time-dependent sources well inside the box: a thin disc around the mid-plane
+        t += ("PhotonSourceDistribution:\n  type: DiscPatch\n  source lifetime: %g s\n  source luminosity: %s s^-1\n  average number of sources: %d\n"
+              "  anchor x: %g m\n  sides x: %g m\n  anchor y: %g m\n  sides y: %g m\n  origin z: %g m\n  scaleheight z: %g m\n  random seed: %d\n  update interval: %g s\n  starting time: 0. s\n" % (
+                  c.get("lifetime", 0.001), c.get("luminosity", "1.e10"), c.get("nsources", 4), anchor[0] + 0.2 * sides[0], 0.6 * sides[0], anchor[1] + 0.2 * sides[1], 0.6 * sides[1],
+                  centre[2], 0.02 * sides[2], c.get("source_seed", 42), c.get("update_interval", 0.0005)))
+    elif c["source"] == "uniformrandom":
+        t += ("PhotonSourceDistribution:\n  type: UniformRandom\n  source lifetime: %g s\n  source luminosity: %s s^-1\n  number of sources: %d\n"
+              "  box anchor: [%g m, %g m, %g m]\n  box sides: [%g m, %g m, %g m]\n  random seed: %d\n  update interval: %g s\n  starting time: 0. s\n" % (
+                  (c.get("lifetime", 0.001), c.get("luminosity", "1.e10"), c.get("nsources", 4)) + tuple(anchor[i] + 0.2 * sides[i] for i in range(3)) + tuple(0.6 * x for x in sides)
+                  + (c.get("source_seed", 42), c.get("update_interval", 0.0005))))
     elif c["source"] == "none":
         t += "PhotonSourceDistribution:\n  type: None\n"
     elif c["source"] == "default":
@@ -441,11 +452,12 @@ def rhd_param(c):
     t += "Hydro:\n  polytropic index: 1.6666666667\n"
     t += "RestartManager:\n  output interval: %s\n  maximum number of backups: %d\n" % (c.get("restart_interval", "100000. s"), c.get("backups", 1))
     if c.get("diffuse"):
-        t += "DiffuseReemissionHandler:\n  type: Physical\n"
+        t += "DiffuseReemissionHandler:\n  type: %s\n" % c.get("reemission", "Physical")
     if c.get("gravity"):
         t += "ExternalPotential:\n  type: PointMass\n  position: [%g m, %g m, %g m]\n  mass: 1. kg\n" % tuple(centre)
     if c.get("mask"):
-        t += "HydroMask:\n  type: RescaledIC\n  center: [%g m, %g m, %g m]\n  radius: %g m\n  delta t: 0.001 s\n" % (tuple(centre) + (0.2 * min(sides),))
+        mc = c.get("mask_centre") or centre
+        t += "HydroMask:\n  type: RescaledIC\n  center: [%g m, %g m, %g m]\n  radius: %g m\n  delta t: 0.001 s\n" % (tuple(mc) + (c.get("mask_radius", 0.2) * min(sides),))
     if c.get("turbulence"):
         t += "TurbulenceForcing:\n  forcing power: 1.e-4 m^2 s^-3\n  time step: 0.001 s\n"
     if c.get("live") is not None:
@@ -574,6 +586,28 @@ def rhd_configs(ctx):
                                               snaptime=0.001, ntasks=1000, nbuf=300, queue=400, density="1.e19 m^-3", live=True), 2, True))
     cs.append(("rhd-stress-small-pools-diffuse", dict(layout=(2, 2, 1), cells=(4, 2, 6), radiation=True, diffuse=True, photons=8000, iterations=2, total_time=0.002, radtime=0.0005,
                                                       snaptime=0.001, ntasks=500, nbuf=100, queue=300, density="1.e20 m^-3", **LIVE_ALL), 4, True))
+    # data races: the optional components with per-subgrid state on 8 (4) threads, repeated (a race
+    # shows as crash / hang / memory checker report in some of the repetitions).  Masks with
+    # subgrids entirely inside, entirely outside and straddling the mask sphere.
+    rep = ctx.budget(3, 6)
+    # (measured on a seeded race in per-subgrid mask state: 64 subgrids on 8 threads 0/6 failing
+    # runs, 512 subgrids 5/6 - a race needs many subgrids per thread to show)
+    cs.append(("rhd-race-mask-inside-outside-8t", dict(layout=(8, 8, 4), cells=(2, 2, 3), mask=True, mask_centre=(0.4375, 0.4375, 0.375), mask_radius=0.2, live=True,
+                                                       total_time=0.001, snaptime=0.001), 8, True, rep))
+    cs.append(("rhd-race-mask-small-sphere-8t", dict(layout=(8, 8, 8), cells=(2, 2, 2), mask=True, mask_radius=0.12, per=(True, True, False), turbulence=True,
+                                                     total_time=0.001, snaptime=0.001), 8, False, rep))
+    cs.append(("rhd-race-live-8t", dict(layout=(8, 4, 8), cells=(2, 3, 2), total_time=0.001, snaptime=0.0005, **LIVE_ALL), 8, False, rep))
+    cs.append(("rhd-race-radiation-mask-4t", dict(layout=(6, 6, 4), cells=(2, 2, 2), mask=True, mask_radius=0.15, radiation=True, diffuse=True, photons=3000, copy_level=2,
+                                                  total_time=0.001, radtime=0.0005, snaptime=0.001, ntasks=20000, nbuf=3000, queue=8000), 4, False, 2))
+    # recycled task slots, subgrid copies that are deleted and re-created between the steps:
+    # radiation + diffuse field + copies + sources that appear and disappear, >= 8 radiation steps
+    moving = dict(radiation=True, diffuse=True, reemission="FixedValue", copy_level=1, source="discpatch", lifetime=0.0008, update_interval=0.0004, nsources=4,
+                  photons=4000, iterations=1, total_time=0.004, radtime=0.0004, snaptime=0.002, ntasks=2000, nbuf=400, queue=1000)
+    cs.append(("rhd-moving-sources-discpatch", dict(layout=(4, 4, 2), cells=(2, 2, 4), live=True, **moving), 2, True, 1))
+    if ctx.thorough:
+        cs.append(("rhd-moving-sources-uniformrandom", dict(layout=(3, 3, 3), cells=(2, 3, 2), **dict(moving, source="uniformrandom", copy_level=2, reemission="Physical")), 4, False, 1))
+        cs.append(("rhd-moving-sources-discpatch-many", dict(layout=(4, 2, 4), cells=(3, 2, 2), mask=True, mask_radius=0.15, **dict(moving, nsources=8, lifetime=0.0005, update_interval=0.0002, copy_level=2)), 3, False, 1))
+        cs.append(("rhd-moving-sources-iterations", dict(layout=(2, 4, 4), cells=(4, 2, 2), **dict(moving, iterations=3, photons=2000, source_seed=7)), 1, False, 1))
     if ctx.thorough:
         # every optional component with every ordering of unequal cells per subgrid
         comps = [("live", dict(LIVE_ALL)), ("mask", dict(mask=True, live=True)), ("turbulence", dict(turbulence=True, per=(True, True, True))), ("gravity", dict(gravity=True)),
@@ -621,6 +655,9 @@ def tbi_configs(ctx):
     # small pools: buffers and tasks are re-used many times within one iteration
     cs.append(("tbi-stress-small-pools", dict(diffuse=True, trackers=True, cells=(2, 4, 3), photons=20000, iterations=3, ntasks=300, nbuf=150, queue=300, copy_level=1), "SW", 3, True))
     cs.append(("tbi-stress-small-pools-continuous", dict(continuous=True, temperature=True, cells=(4, 2, 3), layout=(2, 2, 1), photons=10000, ntasks=300, nbuf=150, queue=300, copy_level=2), None, 2, True))
+    # trackers (per-cell state shared between a subgrid and its copies) on 8 threads, repeated
+    cs.append(("tbi-race-trackers-8t", dict(trackers=True, diffuse=True, cells=(3, 2, 4), layout=(4, 4, 4), photons=20000, iterations=2, copy_level=2, tracker_x=None,
+                                            ntasks=10000, nbuf=3000, queue=5000), "SWASB", 8, True, ctx.budget(3, 6)))
     if ctx.thorough:
         for j, cells in enumerate(ORDERINGS):
             cs.append(("tbi-cells-%dx%dx%d" % cells, dict(cells=cells, layout=[(2, 2, 1), (1, 2, 2), (2, 1, 2)][j % 3], diffuse=j % 2 == 0, continuous=j % 3 == 0,
@@ -640,7 +677,7 @@ def tbi_configs(ctx):
 def tbi_tracker_yaml(types, c):
     t = "number of trackers: %d\n" % len(types)
     for i, ch in enumerate(types):
-        x = c.get("tracker_x", 0.3 if c.get("same_cell") else 0.1 + 0.25 * i)
+        x = c.get("tracker_x") or (0.3 if c.get("same_cell") else 0.1 + (0.25 * i) % 0.85)
         t += "tracker[%d]:\n  position: [%g m, 0.3 m, 0.6 m]\n%s" % (i, x, TRACKER_TYPES[ch])
     return t
 
@@ -675,9 +712,11 @@ def san_summary(log):
 def run_plan(ctx):
     """every whole run of this tier: list of dicts (name, kind, stages [(args, expect)], param, threads, aux, key, san_quick)"""
     plan = []
-    for (name, c, threads, sq) in rhd_configs(ctx):
-        plan.append(dict(name=name, kind="rhd-radiation" if c.get("radiation") else "rhd", param=rhd_param(c), threads=threads,
-                         stages=[(["--task-based-rhd"], live_expect(c))], san_quick=sq))
+    for item in rhd_configs(ctx):
+        (name, c, threads, sq), repeat = item[:4], (item[4] if len(item) > 4 else 1)
+        kind = "rhd-race" if "-race-" in name else "rhd-radiation" if c.get("radiation") else "rhd"
+        plan.append(dict(name=name, kind=kind, param=rhd_param(c), threads=threads,
+                         stages=[(["--task-based-rhd"], live_expect(c))], san_quick=sq, repeat=repeat))
     # recorded finding: a source outside the box (exactly one such configuration, stable key)
     c = dict(layout=(2, 2, 1), anchor=(0.1, -0.3, 0.7), sides=(1.1, 1.1, 1.1), source="default")
     plan.append(dict(name="rhd-source-outside-box", kind="finding", param=rhd_param(c), threads=1, stages=[(["--task-based-rhd", "--number-of-steps", "2"], [])],
@@ -693,9 +732,11 @@ def run_plan(ctx):
         plan.append(dict(name=name, kind="restart", param=rhd_param(c), threads=threads, san_quick=sq,
                          stages=[(["--task-based-rhd", "--number-of-steps", "2"], [r"restart\.dump"]), (["--task-based-rhd", "--restart", "."], live_expect(c))]))
     plan.append(dict(name="rhd-dry-run", kind="rhd", param=rhd_param(dict(layout=(2, 2, 1), live=True)), threads=1, stages=[(["--task-based-rhd", "--dry-run"], [])], san_quick=False))
-    for (name, c, types, threads, sq) in tbi_configs(ctx):
+    for item in tbi_configs(ctx):
+        (name, c, types, threads, sq), repeat = item[:5], (item[5] if len(item) > 5 else 1)
         aux = {"trackers.yml": tbi_tracker_yaml(types, c)} if types else None
-        plan.append(dict(name=name, kind="tbi", param=tbi_param(c), threads=threads, aux=aux, stages=[(["--task-based"], [r"snap\d+\.txt"])], san_quick=sq))
+        plan.append(dict(name=name, kind="tbi-race" if "-race-" in name else "tbi", param=tbi_param(c), threads=threads, aux=aux,
+                         stages=[(["--task-based"], [r"snap\d+\.txt"])], san_quick=sq, repeat=repeat))
     plan.append(dict(name="tbi-dry-run", kind="tbi", param=tbi_param(dict(diffuse=True)), threads=1, stages=[(["--task-based", "--dry-run"], [])], san_quick=False))
     # recorded finding: a `type: Multi` tracker followed by another tracker in the same cell
     c = dict(trackers=True, same_cell=True, copy_level=0)
@@ -733,30 +774,43 @@ def whole_runs(ctx, binary, label, plan, env=None, timeout=60, wrapper=None):
             rep["memory_checker"] = re.sub(r"0x[0-9a-fA-F]{6,}", "0x..", re.sub(r"==\d+==", "==pid==", san_summary(res["log"])))
         ctx.violation(key or ("run:%s:%s" % (label, name)), "%s [%s binary]: %s; command: %s" % (name, label, what, cmd), rep)
 
+    rates = {}
     for it in plan:
         if it["kind"] in hung:
             stats["skipped_after_hang"] += 1
             continue
-        d = tempfile.mkdtemp(prefix="verif_c12_")
-        cmds = []
-        okall = True
-        for (args, expect) in it["stages"]:
-            res, _ = run_binary(binary, it["param"], args, it["threads"], aux=it.get("aux"), env=env, keepdir=d, timeout=timeout, wrapper=wrapper)
-            stats["runs"] += 1
-            ctx.count()
-            cmds.append("CMacIonize --params run.param --threads %d %s --dirty" % (it["threads"], " ".join(args)))
-            ok, what = classify_run(res, expect)
-            if not ok:
-                okall = False
-                if res["timed_out"]:
-                    hung.add(it["kind"])
-                report(it["name"], what, it["param"], " ; ".join(cmds), res, it.get("aux"), key=it.get("key"))
+        nrep = it.get("repeat", 1)
+        if label != "normal":
+            nrep = min(nrep, 2)
+        hits, okall = 0, True
+        for irep in range(nrep):
+            d = tempfile.mkdtemp(prefix="verif_c12_")
+            cmds = []
+            for (args, expect) in it["stages"]:
+                res, _ = run_binary(binary, it["param"], args, it["threads"], aux=it.get("aux"), env=env, keepdir=d, timeout=timeout, wrapper=wrapper)
+                stats["runs"] += 1
+                ctx.count()
+                cmds.append("CMacIonize --params run.param --threads %d %s --dirty" % (it["threads"], " ".join(args)))
+                ok, what = classify_run(res, expect)
+                if not ok:
+                    okall = False
+                    hits += 1
+                    if hits == 1:
+                        report(it["name"], what + (" (repetition %d of %d of the same command)" % (irep + 1, nrep) if nrep > 1 else ""),
+                               it["param"], " ; ".join(cmds), res, it.get("aux"), key=it.get("key"))
+                    break
+            shutil.rmtree(d, ignore_errors=True)
+            if not okall and res["timed_out"]:
+                hung.add(it["kind"])
                 break
-        shutil.rmtree(d, ignore_errors=True)
+        if nrep > 1:
+            rates[it["name"]] = "%d/%d" % (hits, irep + 1)
         ctx.branch("run-" + it["kind"] + "-" + label)
         ctx.distinct(("run", label, it["name"], it["threads"], hashlib.sha256(it["param"].encode()).hexdigest()[:10]), nontrivial=True)
         if it["name"] == "rhd-source-outside-box":
             ctx.cov["source_outside_box_run"] = "completed without a detected error" if okall else "failed as recorded (%s)" % KEY_SOURCE_OUTSIDE
+    if rates:
+        stats["failing_repetitions_of_repeated_runs"] = rates
     if more:
         ctx.violation("run:%s:more-failing-runs" % label, "%d more runs of the %s binary fail (%s)" % (len(more), label, ", ".join(m["run"] + ": " + m["what"][:60] for m in more)[:1500]),
                       {"runs": more, "binary": label, "param": more[0]["param"], "cmd": more[0]["cmd"], "aux_files": more[0]["aux_files"]})
